@@ -16,6 +16,13 @@ func (it *Interp) builtin(fr *frame, b *ssa.Builtin, c *ssa.CallCommon, args []V
 		case *StrV:
 			return it.strLenTerm(x)
 		case *SliceV:
+			if x.len > 0 {
+				for _, e := range x.cell.v.(*ArrayV).e[x.off : x.off+x.len] {
+					if t, ok := e.(*Term); ok && t.op == OpNum {
+						panic(unsupported("len of byte slice holding an opaque numeral"))
+					}
+				}
+			}
 			return ts.BV(uint64(x.len), 64)
 		case *MapV:
 			if x.m == nil {
